@@ -459,16 +459,16 @@ func cmdCheck(args []string) int {
 				mu.Unlock()
 				return
 			}
-			// watchdog: a worker ends by itself when its budget is used up; one that is still there long
-			// after that is stuck (a deadlock inside the simulation). It is killed, and the check ends
-			// with exit 2 (harness trouble), never with a verdict and never by hanging.
-			grace := *budget + 4*time.Minute
+			// watchdog: every run a worker completes is one line on its stdout. A worker that has been
+			// silent for a long time is stuck (a deadlock inside the simulation): it is killed and the
+			// check ends with exit 2 (harness trouble) - never with a verdict, and never by hanging.
+			quiet := 6 * time.Minute
 			if *tier == "thorough" {
-				grace = *budget + 15*time.Minute
+				quiet = 12 * time.Minute
 			}
-			hung := time.AfterFunc(grace, func() {
+			hung := time.AfterFunc(quiet, func() {
 				mu.Lock()
-				workerErr = append(workerErr, fmt.Sprintf("worker %d: still running %s after its budget of %s: killed (stuck simulation)", i, grace-*budget, *budget))
+				workerErr = append(workerErr, fmt.Sprintf("worker %d: no run completed for %s: killed (stuck simulation)", i, quiet))
 				mu.Unlock()
 				cmd.Process.Kill()
 			})
@@ -476,6 +476,7 @@ func cmdCheck(args []string) int {
 			sc := bufio.NewScanner(stdout)
 			sc.Buffer(make([]byte, 1<<20), 64<<20)
 			for sc.Scan() {
+				hung.Reset(quiet)
 				res := new(RunResult)
 				if err := json.Unmarshal(sc.Bytes(), res); err != nil {
 					continue
